@@ -29,7 +29,7 @@ def main():
     if not os.path.isdir(EVAL):
         sh(f"git -C /repo worktree add --detach {EVAL} {head}")
     res = json.load(open(a.out)) if os.path.exists(a.out) else {}
-    for d in sorted(glob.glob(os.path.join(a.src, "p*"))):
+    for d in sorted(glob.glob(os.path.join(a.src, "*"))):
         k = os.path.basename(d)
         if not os.path.exists(os.path.join(d, "patch.diff")) or (only and k not in only):
             continue
